@@ -12,6 +12,8 @@ from fractions import Fraction
 
 import numpy as np
 
+from pwlib.share import shcopy
+
 from pwlib import gens
 from pwlib.canon import flat
 from pwlib.engine import Case
@@ -318,7 +320,7 @@ def make_w2v(spec):
     scale = max(1.0, gens.maxabs(P), gens.maxabs(T))
     cases = []
     for inv in (False, True):
-        f = lambda inv=inv: world_to_view(P.copy(), T.copy(), inverse=inv, **{k: v.copy() for k, v in kw.items()})
+        f = lambda inv=inv: world_to_view(shcopy(P), shcopy(T), inverse=inv, **{k: v.copy() for k, v in kw.items()})
         kl = "w2v/%s/%s/%s" % (spec["stream"], "inv" if inv else "fwd", "nan" if degenerate else "ok")
         cases.append(Case(spec, Line("c12.view.w2v").b(inv).vec(P).vec(T).vec(U), guarded(f), mode="both", klass=kl,
                           trivial=degenerate, scale=scale))
@@ -329,8 +331,8 @@ def make_w2v(spec):
             return [("w2v/no-raise", "raised %s for %s" % (r[1], spec))]
         if degenerate:
             return out
-        A = FM(world_to_view(P.copy(), T.copy(), inverse=False, **kw))
-        B = FM(world_to_view(P.copy(), T.copy(), inverse=True, **kw))
+        A = FM(world_to_view(shcopy(P), shcopy(T), inverse=False, **kw))
+        B = FM(world_to_view(shcopy(P), shcopy(T), inverse=True, **kw))
         if A[3] != [0, 0, 0, 1]:
             out.append(("w2v/last-row", "last row %s" % [float(x) for x in A[3]]))
         fu = [Fr(x) for x in U]
@@ -412,7 +414,7 @@ def make_canvas(spec):
     cases = []
     for inv in (False, True):
         ok = (inv_ok if inv else fwd_ok)
-        f = lambda inv=inv: w2c(w, h, P.copy(), T.copy(), inverse=inv, **kw)
+        f = lambda inv=inv: w2c(w, h, shcopy(P), shcopy(T), inverse=inv, **kw)
         kl = "canvas/%s/%s/%s" % (spec["stream"], "inv" if inv else "fwd", ("ok" if cam_ok else "nan") if ok else "zerodiv")
         cases.append(Case(spec, Line("c12.view.canvas").b(inv).f(w, h).vec(P).vec(T).f(zoom), guarded(f), mode="both", klass=kl,
                           trivial=not (ok and cam_ok), scale=scale))
@@ -423,10 +425,10 @@ def make_canvas(spec):
             return out
         if r[0] == "err":
             return [("canvas/no-raise", "raised %s for %s" % (r[1], spec))]
-        A = FM(w2c(w, h, P.copy(), T.copy(), inverse=False, **kw))
-        B = FM(w2c(w, h, P.copy(), T.copy(), inverse=True, **kw))
+        A = FM(w2c(w, h, shcopy(P), shcopy(T), inverse=False, **kw))
+        B = FM(w2c(w, h, shcopy(P), shcopy(T), inverse=True, **kw))
         for inv, C in ((False, A), (True, B)):
-            st = [FM(world_to_view(P.copy(), T.copy(), inverse=inv)),
+            st = [FM(world_to_view(shcopy(P), shcopy(T), inverse=inv)),
                   FM(view_to_orthographic_projection(w / zoom, h / zoom, inverse=inv)),
                   FM(viewport_transform(w, h, inverse=inv))]
             if inv:
